@@ -70,6 +70,13 @@ type Conn struct {
 	shortReads   int
 
 	stepPtr *int64
+
+	// schedule point of the simulator (nil: none). Socket I/O is a point at
+	// which a real goroutine is descheduled; Write parks here before the data
+	// is taken, and a large write is taken in two parts with a park in between
+	// (a kernel takes what fits into its buffer and blocks for the rest: the
+	// caller's buffer has to stay intact until Write returns).
+	yield func(site string)
 }
 
 func newConn(id int, local, remote string, stepPtr *int64) *Conn {
@@ -129,6 +136,24 @@ func (c *Conn) Read(p []byte) (int, error) {
 func (c *Conn) Write(p []byte) (int, error) {
 	raceOff()
 	defer raceOn()
+	if c.yield != nil {
+		c.yield("net.write")
+		if len(p) > 256 {
+			half := len(p) / 2
+			n, err := c.writePart(p[:half])
+			if err != nil {
+				return n, err
+			}
+			c.yield("net.write-rest")
+			m, err := c.writePart(p[half:])
+			return n + m, err
+		}
+	}
+	return c.writePart(p)
+}
+
+//go:norace
+func (c *Conn) writePart(p []byte) (int, error) {
 	for {
 		c.mu.Lock()
 		if c.srvClosed {
